@@ -119,21 +119,21 @@ impl Drv {
 
 pub type H = LedgerHal;
 
-pub enum Built<T: Transport> {
-    Blk(VirtIOBlk<H, T>),
-    Console(VirtIOConsole<H, T>),
-    Gpu(VirtIOGpu<H, T>),
-    Input(VirtIOInput<H, T>),
-    NetRaw(VirtIONetRaw<H, T, NET_QUEUE_SIZE>),
-    Net(VirtIONet<H, T, NET_QUEUE_SIZE>),
-    Rng(VirtIORng<H, T>),
-    Rtc(VirtIORtc<H, T>),
-    Socket(VirtIOSocket<H, T>),
-    Sound(VirtIOSound<H, T>),
-    P9(VirtIO9p<H, T>),
+pub enum Built<T: Transport, HH: virtio_drivers::Hal = LedgerHal> {
+    Blk(VirtIOBlk<HH, T>),
+    Console(VirtIOConsole<HH, T>),
+    Gpu(VirtIOGpu<HH, T>),
+    Input(VirtIOInput<HH, T>),
+    NetRaw(VirtIONetRaw<HH, T, NET_QUEUE_SIZE>),
+    Net(VirtIONet<HH, T, NET_QUEUE_SIZE>),
+    Rng(VirtIORng<HH, T>),
+    Rtc(VirtIORtc<HH, T>),
+    Socket(VirtIOSocket<HH, T>),
+    Sound(VirtIOSound<HH, T>),
+    P9(VirtIO9p<HH, T>),
 }
 
-pub fn build<T: Transport>(d: Drv, t: T, net_buf_len: usize) -> Result<Built<T>, Error> {
+pub fn build_with<T: Transport, HH: virtio_drivers::Hal>(d: Drv, t: T, net_buf_len: usize) -> Result<Built<T, HH>, Error> {
     Ok(match d {
         Drv::Blk => Built::Blk(VirtIOBlk::new(t)?),
         Drv::Console => Built::Console(VirtIOConsole::new(t)?),
@@ -147,6 +147,10 @@ pub fn build<T: Transport>(d: Drv, t: T, net_buf_len: usize) -> Result<Built<T>,
         Drv::Sound => Built::Sound(VirtIOSound::new(t)?),
         Drv::P9 => Built::P9(VirtIO9p::new(t)?),
     })
+}
+
+pub fn build<T: Transport>(d: Drv, t: T, net_buf_len: usize) -> Result<Built<T>, Error> {
+    build_with::<T, LedgerHal>(d, t, net_buf_len)
 }
 
 // ------------------------------------------------------------------------------------------
@@ -751,6 +755,10 @@ pub fn run(ctx: &Ctx) -> (Vec<Case>, String, bool, BTreeMap<String, String>) {
     });
     let (mm, mmio_rule) = crate::c08_mmio::run_mmio(ctx);
     cases.extend(mm);
+    let selftest = crate::c09_drop::oracle_selftest(ctx.case_id("C08", "oracle-selftest", 0));
+    if ctx.wants(&selftest.id) {
+        cases.push(selftest);
+    }
     let rule = format!(
         "model transport: 11 drivers x (all 2^m combinations of the driver's relevant feature bits on an all-zero and an all-ones background, boundary words, random 64-bit words) x (modern, legacy queue layout); each case = construct, compare the ordered transport/HAL event list with the model, run the feature-gated operations (blk flush, console size / emergency write, gpu EDID, net header length; rng / 9p requests for the INDIRECT flag) against a reference device, drop; non-trivial = construction succeeded. {}",
         mmio_rule
